@@ -68,6 +68,6 @@ def check(ctx):
     from .common import check_interp_options
 
     rhs_rule(ctx, "C03-e")  # every step conserves what the previous level holds: no value is lifted or cut before the solve
-    check_interp_options(ctx, "C03-f", ["bluebonnet.flow.reservoir", "bluebonnet.flow.flowproperties"], 10)
+    check_interp_options(ctx, "C03-f", ["bluebonnet.flow.reservoir", "bluebonnet.flow.flowproperties"], 6)
     fvf_and_alpha(ctx, "C03-d")
     ctx.floor("C03", len(ctx.obligs), 10, "recovery obligations")
